@@ -355,6 +355,12 @@ C = "renamify-core/src/"
 GUARDS = [
     ("lineAfterChecked", C + "scanner.rs", "generate_hunks",
      [r"line_string \.get\(match_col\.\.\)"], [r"line_string\[match_col\.\.\]"]),
+    # third shape of the same site (7807217): the match is compared on the RAW byte line, the parts are decoded separately
+    ("lineAfterRawChecked", C + "scanner.rs", "generate_hunks",
+     [r"let raw_end = match_col \+ content\.len\(\);",
+      r"if line\.get\(match_col\.\.raw_end\) == Some\(content\.as_bytes\(\)\) \{ let mut after_line = String::from_utf8_lossy\(&line\[\.\.match_col\]\)\.into_owned\(\);",
+      r"String::from_utf8_lossy\(&line\[raw_end\.\.\]\)"],
+     [r"line_string\[match_col", r"line_string\[\.\.match_col"]),
     ("resolverPrefixChecked", C + "ambiguity/resolver.rs", "try_language_heuristics",
      [r"line\.get\(\.\.match_pos\)"], [r"line\[\.\.match_pos\]"]),
     ("diffAfterLineChecked", C + "preview/diff.rs", "render_diff",
